@@ -58,7 +58,11 @@ Discrete   == {"binomial", "negbinomial", "poisson", "geometric", "categorical",
 Wrapped    == {"logt_normal", "logt_gamma", "trans_exp", "mix_normal_exp", "mix_exp_pareto",
                "iid_normal", "iid_exp", "id_normal_exp"}
 Multi      == {"vnormal", "vt", "skewnormal", "iwishart"}
-AllFamilies == Continuous \cup Discrete \cup Wrapped \cup Multi
+(* the same vector / matrix families and products at dimension 1 and 3 (3x3 matrices are *)
+(* tridiagonal: entries a11 a12 a22 a23 a33, a13 = 0; InverseWishart 3x3: S diagonal)     *)
+OddDim     == {"vnormal1", "vnormal3", "vt1", "vt3", "skewnormal1", "iid_normal1", "iid_normal3", "iid_exp3",
+               "id_normal1", "id_nen3", "iwishart1", "iwishart3"}
+AllFamilies == Continuous \cup Discrete \cup Wrapped \cup Multi \cup OddDim
 
 (* number of scalar parameters (term variables x_1 .. x_NP) *)
 NP(f) ==
@@ -70,10 +74,19 @@ NP(f) ==
     [] f = "vt" -> 6
     [] f = "iwishart" -> 4
     [] f = "skewnormal" -> 9
+    [] f \in {"vnormal1", "iid_normal1", "iid_normal3", "id_normal1", "iwishart1"} -> 2
+    [] f = "vt1" -> 3
+    [] f \in {"skewnormal1", "iwishart3"} -> 4
+    [] f = "id_nen3" -> 5
+    [] f = "vnormal3" -> 8
+    [] f = "vt3" -> 9
+    [] f = "iid_exp3" -> 1
 
 (* dimension of the evaluation point *)
 XDim(f) == CASE f \in {"iid_normal", "iid_exp", "id_normal_exp", "vnormal", "vt", "skewnormal"} -> 2
              [] f = "iwishart" -> 3        \* x11, x12 (= x21), x22
+             [] f \in {"vnormal3", "vt3", "iid_normal3", "iid_exp3", "id_nen3"} -> 3
+             [] f = "iwishart3" -> 5       \* x11, x12, x22, x23, x33 (x13 = 0)
              [] OTHER -> 1
 
 P(i)      == X(i)
@@ -85,6 +98,9 @@ XV(f, j)  == X(NP(f) + j)
 (* probability in the Categorical) are neither required to be accepted nor *)
 (* to be rejected: they do not occur in the grids.                         *)
 SPD2(s11, s12, s22) == Pos(s11) /\ Pos(RSub(RMul(s11, s22), RMul(s12, s12)))
+(* symmetric tridiagonal 3x3: leading principal minors *)
+RDet3T(a11, a12, a22, a23, a33) == RSub(RMul(a11, RSub(RMul(a22, a33), RMul(a23, a23))), RMul(RMul(a12, a12), a33))
+SPD3T(a11, a12, a22, a23, a33) == SPD2(a11, a12, a22) /\ Pos(RDet3T(a11, a12, a22, a23, a33))
 
 Valid(f, p) ==
   CASE f \in {"normal", "laplace", "cauchy", "gpareto0", "gev0"} -> Pos(p[2])
@@ -110,6 +126,21 @@ Valid(f, p) ==
     [] f = "vt"                   -> Pos(p[1]) /\ SPD2(p[4], p[5], p[6])
     [] f = "iwishart"             -> RLt(I(1), p[1]) /\ SPD2(p[2], p[3], p[4])
     [] f = "skewnormal"           -> SPD2(p[3], p[4], p[5]) /\ Pos(p[8]) /\ Pos(p[9])
+    [] f \in {"vnormal1", "iid_normal1", "iid_normal3", "id_normal1"} -> Pos(p[2])
+    [] f = "vt1"                  -> Pos(p[1]) /\ Pos(p[3])
+    [] f = "skewnormal1"          -> Pos(p[2]) /\ Pos(p[4])
+    [] f = "iid_exp3"             -> Pos(p[1])
+    [] f = "id_nen3"              -> Pos(p[2]) /\ Pos(p[3]) /\ Pos(p[5])
+    [] f = "vnormal3"             -> SPD3T(p[4], p[5], p[6], p[7], p[8])
+    [] f = "vt3"                  -> Pos(p[1]) /\ SPD3T(p[5], p[6], p[7], p[8], p[9])
+    [] f = "iwishart1"            -> Pos(p[1]) /\ Pos(p[2])                 \* nu > d-1 = 0
+    [] f = "iwishart3"            -> RLt(I(2), p[1]) /\ Pos(p[2]) /\ Pos(p[3]) /\ Pos(p[4])
+
+(* why a tuple is invalid, where the reason matters for a known finding: a   *)
+(* positive SEMI-definite (singular) scale matrix is not a valid parameter     *)
+InvalidWhy(f, p) ==
+  IF f = "iwishart3" /\ RLt(I(2), p[1]) /\ NonNeg(p[2]) /\ NonNeg(p[3]) /\ NonNeg(p[4])
+  THEN "singular_scale" ELSE "invalid"
 
 (* ------------------------------------------------------ parameter grids *)
 (* small rationals including boundary-near shapes (shape < 1, = 1, > 1)   *)
@@ -178,7 +209,27 @@ ParamSet0(f) ==
                                 m2 \in {I(1)}, o \in {<<I(1), I(0), I(1)>>, <<I(2), I(1), I(1)>>}, al \in {<<I(0), I(0)>>, <<I(1), I(-2)>>, <<I(3), I(1)>>}, sc \in {I(1), I(2)}}
                             \cup {<<I(0), I(0), I(1), I(2), I(1), I(1), I(1), I(1), I(1)>>}
 
-ParamSet(f) == ParamSet0(f) \cup (IF Deep THEN DeepExtra(f) ELSE {})
+
+Tri3 == {<<I(1), I(0), I(1), I(0), I(1)>>, <<I(2), I(1), I(2), I(-1), I(3)>>, <<I(4), I(-1), I(1), R(1, 2), I(2)>>}
+ParamSetOdd(f) ==
+  CASE f = "vnormal1"    -> Cross2({I(0), R(-1, 2)}, {R(1, 2), I(1), I(3)}) \cup {<<I(0), I(0)>>, <<I(0), I(-1)>>}
+    [] f = "vnormal3"    -> {<<m1, I(1), R(-1, 2)>> \o t : m1 \in {I(0), I(2)}, t \in Tri3}
+                            \cup {<<I(0), I(0), I(0), I(1), I(2), I(1), I(0), I(1)>>, <<I(0), I(0), I(0), I(1), I(0), I(1), I(1), I(1)>>}
+    [] f = "vt1"         -> Cross3({R(1, 2), I(1), I(4)}, {I(0)}, {R(1, 2), I(2)}) \cup {<<I(1), I(1), I(1)>>, <<I(0), I(0), I(1)>>, <<I(-1), I(0), I(1)>>, <<I(1), I(0), I(-1)>>}
+    [] f = "vt3"         -> {<<nu, I(0), I(1), R(-1, 2)>> \o t : nu \in {R(1, 2), I(3)}, t \in Tri3}
+                            \cup {<<I(0), I(0), I(0), I(0), I(1), I(0), I(1), I(0), I(1)>>, <<I(1), I(0), I(0), I(0), I(1), I(2), I(1), I(0), I(1)>>}
+    [] f = "skewnormal1" -> {<<I(0), o, al, sc>> : o \in {I(1), I(2)}, al \in {I(0), I(-2), I(3)}, sc \in {I(1), R(1, 2)}}
+                            \cup {<<I(0), I(-1), I(1), I(1)>>, <<I(0), I(0), I(1), I(1)>>}
+    [] f \in {"iid_normal1", "iid_normal3", "id_normal1"} -> Cross2({I(0), I(1)}, {R(1, 2), I(2)}) \cup {<<I(0), I(0)>>, <<I(0), I(-1)>>}
+    [] f = "iid_exp3"    -> {<<R(1, 2)>>, <<I(1)>>, <<I(3)>>, <<I(0)>>, <<I(-2)>>}
+    [] f = "id_nen3"     -> {<<I(0), s, l, I(1), I(2)>> : s \in {R(1, 2), I(1)}, l \in {R(1, 2), I(3)}}
+                            \cup {<<I(0), I(0), I(1), I(0), I(1)>>, <<I(0), I(1), I(-1), I(0), I(1)>>, <<I(0), I(1), I(1), I(0), I(0)>>}
+    [] f = "iwishart1"   -> Cross2({R(1, 2), I(1), I(3)}, {R(1, 2), I(2)}) \cup {<<I(0), I(1)>>, <<I(-1), I(1)>>, <<I(2), I(-1)>>}
+    [] f = "iwishart3"   -> {<<nu, d[1], d[2], d[3]>> : nu \in {R(5, 2), I(3), I(5)}, d \in {<<I(1), I(1), I(1)>>, <<I(2), I(1), I(3)>>}}
+                            \cup {<<I(2), I(1), I(1), I(1)>>, <<I(1), I(1), I(1), I(1)>>, <<I(3), I(1), I(0), I(1)>>, <<I(3), I(-1), I(1), I(1)>>}
+    [] OTHER -> {}
+
+ParamSet(f) == IF f \in OddDim THEN ParamSetOdd(f) ELSE ParamSet0(f) \cup (IF Deep THEN DeepExtra(f) ELSE {})
 
 (* valid tuples first (the driver and the Set/Clone actions address them by index) *)
 ParamList(f) == SetSeq({p \in ParamSet(f) : Valid(f, p)}) \o SetSeq({p \in ParamSet(f) : ~Valid(f, p)})
@@ -227,6 +278,11 @@ Supp(f, p, xs) ==
     [] f = "iid_exp"     -> IF xs[1].n < 0 \/ xs[2].n < 0 THEN "out" ELSE "in"
     [] f = "id_normal_exp" -> IF xs[2].n < 0 THEN "out" ELSE "in"
     [] f = "iwishart"    -> IF SPD2(xs[1], xs[2], xs[3]) THEN "in" ELSE "reject"
+    [] f \in {"vnormal1", "vnormal3", "vt1", "vt3", "skewnormal1", "iid_normal1", "iid_normal3", "id_normal1"} -> "in"
+    [] f = "iid_exp3"    -> IF xs[1].n < 0 \/ xs[2].n < 0 \/ xs[3].n < 0 THEN "out" ELSE "in"
+    [] f = "id_nen3"     -> IF xs[2].n < 0 THEN "out" ELSE "in"
+    [] f = "iwishart1"   -> IF Pos(x) THEN "in" ELSE "reject"
+    [] f = "iwishart3"   -> IF SPD3T(xs[1], xs[2], xs[3], xs[4], xs[5]) THEN "in" ELSE "reject"
 
 Class(s) == CASE s = "in" -> "finite" [] s = "out" -> "neginf" [] s = "bd" -> "boundary"
               [] s = "nonint" -> "nonint" [] s = "reject" -> "reject"
@@ -271,9 +327,16 @@ VecX == {<<I(0), I(0)>>, <<I(1), I(1)>>, <<I(-1), R(1, 2)>>, <<R(1, 2), I(-2)>>,
 MatX == {<<I(1), I(0), I(1)>>, <<I(2), I(1), I(1)>>, <<I(1), R(1, 2), I(2)>>, <<I(3), I(-1), R(1, 2)>>, <<R(1, 2), I(0), R(1, 4)>>,
          <<I(1), I(2), I(1)>>, <<I(1), I(1), I(1)>>, <<I(-1), I(0), I(1)>>, <<I(0), I(0), I(0)>>}
 
+Vec3X == {<<I(0), I(0), I(0)>>, <<I(1), I(1), I(1)>>, <<I(-1), R(1, 2), I(2)>>, <<R(1, 2), I(-2), I(0)>>, <<I(2), R(1, 4), I(-1)>>,
+          <<I(0), I(1), I(-3)>>, <<R(3, 2), I(3), R(1, 2)>>}
+Mat3X == {<<I(1), I(0), I(1), I(0), I(1)>>, <<I(2), I(1), I(2), I(-1), I(3)>>, <<I(1), R(1, 2), I(2), R(1, 2), I(1)>>, <<I(3), I(-1), I(1), I(0), R(1, 2)>>,
+          <<I(1), I(2), I(1), I(0), I(1)>>, <<I(1), I(0), I(1), I(1), I(1)>>, <<I(-1), I(0), I(1), I(0), I(1)>>, <<I(0), I(0), I(0), I(0), I(0)>>}
+
 XGrid(f, p) ==
   IF XDim(f) = 2 THEN VecX
-  ELSE IF XDim(f) = 3 THEN MatX
+  ELSE IF f = "iwishart" THEN MatX
+  ELSE IF f = "iwishart3" THEN Mat3X
+  ELSE IF XDim(f) = 3 THEN Vec3X
   ELSE IF f \in Discrete \ {"delta"} THEN {<<x>> : x \in CountX}
   ELSE IF f = "betalog" THEN {<<x>> : x \in {I(-5), I(-3), I(-1), R(-1, 2), R(-1, 8), I(0), R(1, 8), I(1)}}
   ELSE {<<x>> : x \in RealX \cup Around(BPts(f, p))}
@@ -318,6 +381,26 @@ LPVT(nu, m1, m2, s11, s12, s22, x1, x2) ==
   LET h == Div(Add(nu, Two), Two) IN
   Sub(Sub(Sub(Sub(Lg(h), Lg(Div(nu, Two))), Mul(Half, Log(Det2(s11, s12, s22)))), Log(Mul(nu, Pi))),
       Mul(h, Log(Add(One, Div(Quad2(s11, s12, s22, Sub(x1, m1), Sub(x2, m2)), nu)))))
+(* dimension 1 and 3 (tridiagonal 3x3: a13 = 0); d is the dimension *)
+Det3T(a11, a12, a22, a23, a33) == Sub(Mul(a11, Sub(Mul(a22, a33), Sq(a23))), Mul(Sq(a12), a33))
+(* y' A^-1 y through the adjugate of the symmetric tridiagonal matrix *)
+Quad3T(a11, a12, a22, a23, a33, y1, y2, y3) ==
+  LET c11 == Sub(Mul(a22, a33), Sq(a23))   c12 == Neg(Mul(a12, a33))   c13 == Mul(a12, a23)
+      c22 == Mul(a11, a33)                 c23 == Neg(Mul(a11, a23))   c33 == Sub(Mul(a11, a22), Sq(a12))
+  IN Div(Add(Add(Add(Mul(c11, Sq(y1)), Mul(c22, Sq(y2))), Mul(c33, Sq(y3))),
+             Mul(Two, Add(Add(Mul(c12, Mul(y1, y2)), Mul(c13, Mul(y1, y3))), Mul(c23, Mul(y2, y3))))),
+         Det3T(a11, a12, a22, a23, a33))
+(* N_d(x; mu, Sigma) from log det and the quadratic form *)
+LPVNormalGen(d, logdet, quad) == Sub(Sub(Mul(QF(-d, 2), Log2Pi), Mul(Half, logdet)), Mul(Half, quad))
+LPVTGen(d, nu, logdet, quad) ==
+  LET h == Div(Add(nu, QI(d)), Two) IN
+  Sub(Sub(Sub(Sub(Lg(h), Lg(Div(nu, Two))), Mul(Half, logdet)), Mul(QF(d, 2), Log(Mul(nu, Pi)))),
+      Mul(h, Log(Add(One, Div(quad, nu)))))
+(* inverse Wishart of dimension d from log det S, log det X and tr(S X^-1) *)
+LPIWishartGen(d, nu, logdetS, logdetX, tr) ==
+  Sub(Sub(Sub(Sub(Mul(Div(nu, Two), logdetS), Mul(Mul(nu, QF(d, 2)), Log(Two))), MeaningP("Mlgamma", I(d), Div(nu, Two))),
+          Mul(Div(Add(nu, QI(d + 1)), Two), logdetX)), Mul(Half, tr))
+
 (* log Phi(t) = log(erfc(-t/sqrt 2)) - log 2 *)
 LogPhi(t) == Sub(Log(Sub(One, U("erf", Neg(Div(t, Sqrt(Two)))))), Log(Two))
 LPSkewNormal(x1, x2) ==
@@ -394,6 +477,28 @@ LP(f, v) ==
     [] f = "vt"          -> LPVT(P(1), P(2), P(3), P(4), P(5), P(6), x, x2)
     [] f = "skewnormal"  -> LPSkewNormal(x, x2)
     [] f = "iwishart"    -> LPIWishart(P(1), P(2), P(3), P(4), x, x2, x3)
+    (* ---- dimension 1 and 3 *)
+    [] f = "vnormal1"    -> LPVNormalGen(1, Log(P(2)), Div(Sq(Sub(x, P(1))), P(2)))
+    [] f = "vnormal3"    -> LPVNormalGen(3, Log(Det3T(P(4), P(5), P(6), P(7), P(8))),
+                                         Quad3T(P(4), P(5), P(6), P(7), P(8), Sub(x, P(1)), Sub(x2, P(2)), Sub(x3, P(3))))
+    [] f = "vt1"         -> LPVTGen(1, P(1), Log(P(3)), Div(Sq(Sub(x, P(2))), P(3)))
+    [] f = "vt3"         -> LPVTGen(3, P(1), Log(Det3T(P(5), P(6), P(7), P(8), P(9))),
+                                    Quad3T(P(5), P(6), P(7), P(8), P(9), Sub(x, P(2)), Sub(x2, P(3)), Sub(x3, P(4))))
+    (* xi, omega, alpha, scale: 2 N(x; xi, scale^2 omega) Phi(alpha (x-xi)/scale) *)
+    [] f = "skewnormal1" -> LET k == Mul(Sq(P(4)), P(2)) IN
+                            Add(Add(Log(Two), LPVNormalGen(1, Log(k), Div(Sq(Sub(x, P(1))), k))),
+                                LogPhi(Mul(P(3), Div(Sub(x, P(1)), P(4)))))
+    [] f = "iid_normal1" -> LPNormal(P(1), P(2), x)
+    [] f = "id_normal1"  -> LPNormal(P(1), P(2), x)
+    [] f = "iid_normal3" -> Add(Add(LPNormal(P(1), P(2), x), LPNormal(P(1), P(2), x2)), LPNormal(P(1), P(2), x3))
+    [] f = "iid_exp3"    -> Add(Add(LPExp(P(1), x), LPExp(P(1), x2)), LPExp(P(1), x3))
+    [] f = "id_nen3"     -> Add(Add(LPNormal(P(1), P(2), x), LPExp(P(3), x2)), LPNormal(P(4), P(5), x3))
+    [] f = "iwishart1"   -> LPIWishartGen(1, P(1), Log(P(2)), Log(x), Div(P(2), x))
+    (* S diagonal, X tridiagonal: tr(S X^-1) = sum_i S_ii adj(X)_ii / det X *)
+    [] f = "iwishart3"   -> LET x4 == XV(f, 4)  x5 == XV(f, 5) IN
+                            LPIWishartGen(3, P(1), Log(Mul(Mul(P(2), P(3)), P(4))), Log(Det3T(x, x2, x3, x4, x5)),
+                                          Div(Add(Add(Mul(P(2), Sub(Mul(x3, x5), Sq(x4))), Mul(P(3), Mul(x, x5))),
+                                                  Mul(P(4), Sub(Mul(x, x3), Sq(x2)))), Det3T(x, x2, x3, x4, x5)))
 
 (* parameters w.r.t. which the library can differentiate LogPdf (Real64     *)
 (* parameters activated as variables); integer / plain float64 constructor *)
@@ -407,6 +512,9 @@ DiffVars(f) ==
     [] f = "vt"          -> <<1, 2, 3>>
     [] f = "skewnormal"  -> <<1, 2, 6, 7>>
     [] f = "iwishart"    -> <<1>>
+    [] f = "vnormal3"    -> <<1, 2, 3>>
+    [] f = "vt3"         -> <<1, 2, 3, 4>>
+    [] f = "iwishart3"   -> <<1>>
     [] OTHER -> [i \in 1..NP(f) |-> i]
 
 (* ------------------------------------------------------------------ CDFs *)
@@ -461,6 +569,10 @@ PVec(f) ==
     [] f = "vt"          -> <<P(1), P(2), P(3), P(4), P(5), P(5), P(6)>>
     [] f = "iwishart"    -> <<P(2), P(3), P(3), P(4), P(1)>>
     [] f = "skewnormal"  -> <<P(1), P(2), P(3), P(4), P(4), P(5), P(6), P(7), P(8), P(9)>>
+    [] f = "vnormal3"    -> <<P(1), P(2), P(3), P(4), P(5), Zero, P(5), P(6), P(7), Zero, P(7), P(8)>>
+    [] f = "vt3"         -> <<P(1), P(2), P(3), P(4), P(5), P(6), Zero, P(6), P(7), P(8), Zero, P(8), P(9)>>
+    [] f = "iwishart1"   -> <<P(2), P(1)>>
+    [] f = "iwishart3"   -> <<P(2), Zero, Zero, Zero, P(3), Zero, Zero, Zero, P(4), P(1)>>
     [] OTHER -> [i \in 1..NP(f) |-> P(i)]
 
 (* ------------------------------------------- exact masses, discrete families *)
@@ -560,7 +672,7 @@ New(f, i) ==
                            ELSE IF f = "geometric" THEN RPow(RSub(I(1), p[1]), KMax + 1) ELSE RZero,
                   far |-> FarExp(f, p)])
      ELSE /\ UNCHANGED vars
-          /\ Out([k |-> "t", op |-> "new", fam |-> f, a |-> 0, b |-> 0, w |-> 1, j |-> i, exp |-> "error"])
+          /\ Out([k |-> "t", op |-> "new", fam |-> f, a |-> 0, b |-> 0, w |-> 1, j |-> i, exp |-> "error", why |-> InvalidWhy(f, p)])
 
 (* constructor arguments that are not part of the parameter vector cannot be *)
 (* changed by SetParameters (pseudo count of the wrappers)                   *)
@@ -580,7 +692,7 @@ SetP(w, j) ==
           /\ Out([k |-> "t", op |-> "set", fam |-> fam, a |-> a, b |-> b, w |-> w, j |-> j, exp |-> "ok"])
      ELSE (* rejected: the call fails loudly; what is left in the receiver is not specified (DESIGN 3.6) *)
           /\ UNCHANGED vars
-          /\ Out([k |-> "t", op |-> "set", fam |-> fam, a |-> a, b |-> b, w |-> w, j |-> j, exp |-> "error"])
+          /\ Out([k |-> "t", op |-> "set", fam |-> fam, a |-> a, b |-> b, w |-> w, j |-> j, exp |-> "error", why |-> InvalidWhy(fam, q)])
 
 CloneA ==
   /\ fam # "none" /\ b = 0
